@@ -842,6 +842,17 @@ var readOps = []readOp{
 		l.ForEachAsync(func(i int, v any) { atomic.AddInt64(&n, int64(i)) })
 		return fmt.Sprint(n)
 	}},
+	{"List.String-next-to-empty-results", func(l at.List, o at.Object) string {
+		// printing is interleaved with the printing of fresh empty and tiny containers (results of filters that match nothing,
+		// new lists and objects): whatever the printing code shares between calls is shared between goroutines here
+		e1 := l.Filter(func(any) bool { return false }).String()
+		s1 := l.String()
+		e2 := at.NewList().String() + at.NewObject().String() + o.Pluck().String() + at.NewList(1).String()
+		s2 := o.String()
+		f1 := at.NewList().FormatString(2) + at.NewObject().FormatString(0)
+		p, err := at.ParseObject(s2)
+		return fmt.Sprint(e1, e2, f1, s1 == l.String(), len(s2), err == nil && p.Equals(o))
+	}},
 	{"List.typed-views", func(l at.List, o at.Object) string {
 		var b strings.Builder
 		fmt.Fprint(&b, stringCanon(l.MapInts(func(x int) any { return x + 1 })), stringCanon(l.MapStrings(func(x string) any { return x + "!" })), stringCanon(l.MapFloats(func(x float64) any { return x * 2 })),
